@@ -46,6 +46,11 @@ func VerifC20Client() {
 		keyRan++
 		return keyVerdict
 	})
+	oddRan := 0
+	c.GetNativeInterpreter().AddMatcher(vTbl, interpreter.ExpressionTypeKey, "begins_with(p, :p)", func(item, attrs map[string]*mtypes.Item) bool {
+		oddRan++
+		return keyVerdict
+	})
 	c.GetNativeInterpreter().AddMatcher(vTbl, interpreter.ExpressionTypeFilter, "v = :x", func(item, attrs map[string]*mtypes.Item) bool {
 		filterRan++
 		return verdict
@@ -58,7 +63,7 @@ func VerifC20Client() {
 	v, x := nd.StringN("v", 1), nd.StringN("x", 1)
 	nd.Assert(vPut(c, vItem{"p": vS("k"), "v": vS(v)}) == nil, "setup-put")
 
-	switch nd.Choice("op", 7) {
+	switch nd.Choice("op", 8) {
 	case 0: // registered condition text (with extra blanks)
 		_, err := c.PutItem(vCtx, &dynamodb.PutItemInput{TableName: aws.String(vTbl), Item: vItem{"p": vS("k"), "v": vS("new")},
 			ConditionExpression: aws.String("  v =  :x "), ExpressionAttributeValues: vItem{":x": vS(x)}})
@@ -136,6 +141,16 @@ func VerifC20Client() {
 		if err == nil {
 			nd.Assert(keyRan == 0 && filterRan == 0, "C20-client-key-registration-never-fires-for-a-filter")
 			nd.Assert((len(out.Items) == 1) == (x == "k"), "C20-client-unregistered-filter-falls-back")
+		}
+	case 7: // a registered key-condition text need not be one the built-in interpreter would accept
+		if native {
+			nd.Reach("native-odd-key-text")
+			out, err := c.Query(vCtx, &dynamodb.QueryInput{TableName: aws.String(vTbl), KeyConditionExpression: aws.String("begins_with(p,  :p)"), ExpressionAttributeValues: vItem{":p": vS("k")}})
+			nd.Assert(err == nil, "C20-client-registered-key-text-dispatched-noerr")
+			if err == nil {
+				nd.Assert(oddRan >= 1, "C20-client-registered-key-text-matcher-ran")
+				nd.Assert((len(out.Items) == 1) == keyVerdict, "C20-client-registered-key-text-verdict-decides")
+			}
 		}
 	}
 	nd.Assert(staleRan == 0, "C20-client-replaced-registry-never-fires")
